@@ -6,7 +6,6 @@ package c17
 // AddBlock, applyDelegationSwitch), one delegation per delegation-switch window.
 
 import (
-	"math/big"
 	"testing"
 	"time"
 
@@ -42,7 +41,10 @@ func TestDelegationChainReachableOnChain(t *testing.T) {
 		t.Fatalf("harness: %v", err)
 	}
 	a, b, c, d := w.Actors[1], w.Actors[2], w.Actors[3], w.Actors[4]
-	delegatee := func(x *sim.Actor) *common.Address { return r.ReadState().State.GetIdentity(x.Addr).Delegatee() }
+	delegatee := func(x *sim.Actor) *common.Address {
+		id := r.ReadState().State.GetIdentity(x.Addr)
+		return id.Delegatee()
+	}
 	step := func() *types.Block {
 		w.Advance(20 * time.Second)
 		var blk *types.Block
@@ -92,5 +94,4 @@ func TestDelegationChainReachableOnChain(t *testing.T) {
 		t.Fatalf("chain not established: A->%v B->%v C->%v", da, db, dc)
 	}
 	evid.Count("reachability.chain-of-3-built-by-delegate-transactions")
-	_ = big.NewInt
 }
